@@ -1035,4 +1035,68 @@ theorem cellOK_common (T : Tables) (p : String) (h : commonOK T p = true) (tag :
     simp only [hn d hd0, srule_tagFree tag p htf]
     exact hc
 
+/-! ### the element the parser builds for `<tag attr="text">` -/
+
+/-- `AdvancedTag(tag, [(attr, text)])` — the constructor call of `handle_starttag`. -/
+def constructed (T : Tables) (tag attr : String) (anc : List String) (s : Str) : Elem :=
+  Elem.ofAttrList T tag anc [(attr, some s)] (Elem.new tag anc)
+
+theorem constructed_notBoolStr {T : Tables} {a : String} (f : NameFacts T a) (hs : T.boolStrings.contains (lowerS a) = false)
+    (hv : isValidAttributeName (lowerS a) = true) (tag : String) (anc : List String) (s : Str) :
+    constructed T tag (lowerS a) anc s = { Elem.new tag anc with attrs := [(lowerS a, some s)] } := by
+  unfold constructed Elem.ofAttrList
+  simp only [f.idem, hv, Bool.not_true, Bool.false_eq_true, if_false]
+  unfold Elem.dictSetItem
+  simp only [f.idem, f.nc, f.nst, hs, if_false, Bool.false_eq_true]
+  rfl
+
+theorem lookup_singleton {β} (k : String) (v : β) : [(k, v)].lookup k = some v := by
+  simp [List.lookup]
+
+/-- Reading a property of the element built for `<tag attr="text">` gives the documented rule on that text
+(className and spellcheck, whose stored form differs from the text, are covered by the stream). -/
+theorem getProp_constructed (T : Tables) (pi : Str → Except PyErr Int) (hpi : ValueErrorOnly pi) (tag prop : String)
+    (hc : cellOK T tag prop = true) (anc : List String) (s : Str)
+    (h1 : srule tag prop ≠ .className) (h2 : srule tag prop ≠ .boolString) :
+    getProp T pi (constructed T tag (htmlName prop) anc s) prop
+      = .ok (expected pi (srule tag prop) (.text s) anc []) := by
+  obtain ⟨d, f⟩ := cellOK_facts hc
+  have hs : normSet d.set = (Spec.disp (htmlName prop) (srule tag prop)).set := by
+    have := congrArg Disp.set f.norm
+    simpa only [Spec.norm] using this
+  -- the name `a` the code stores under, with `lowerS a = htmlName prop`, is not a true/false-string name
+  have key : ∃ a, lowerS a = htmlName prop ∧ NameFacts T a ∧ T.boolStrings.contains (lowerS a) = false
+      ∧ isValidAttributeName (lowerS a) = true := by
+    have hok := f.setOK
+    cases hd : d.set with
+    | className =>
+      rw [hd] at hs
+      cases hr : srule tag prop <;> rw [hr] at hs <;> simp [normSet, Spec.disp] at hs
+      exact absurd hr h1
+    | boolStr a =>
+      rw [hd] at hs
+      cases hr : srule tag prop <;> rw [hr] at hs <;> simp [normSet, Spec.disp] at hs
+      exact absurd hr h2
+    | boolean a =>
+      rw [hd] at hs hok
+      simp only [setOK, Bool.and_eq_true] at hok
+      obtain ⟨nf, _, hbs⟩ := boolName_facts hok.1.1
+      refine ⟨a, ?_, nf, hbs, hok.2⟩
+      cases hr : srule tag prop <;> rw [hr] at hs <;> simp [normSet, Spec.disp] at hs
+      exact hs
+    | string a =>
+      rw [hd] at hs hok
+      simp only [setOK, Bool.and_eq_true] at hok
+      obtain ⟨nf, _, hbs⟩ := plainName_facts hok.1.1
+      refine ⟨a, ?_, nf, hbs, hok.2⟩
+      cases hr : srule tag prop <;> rw [hr] at hs <;> simp [normSet, Spec.disp] at hs <;> exact hs
+  obtain ⟨a, ha, nf, hbs, hv⟩ := key
+  have hcon := constructed_notBoolStr nf hbs hv tag anc s
+  rw [ha] at hcon
+  have := getProp_of_cellOK T pi hpi (constructed T tag (htmlName prop) anc s) prop
+    (by rw [hcon]; exact hc) (by rw [hcon]; rfl)
+    (by right; rw [hcon]; simp only [Elem.entry, Elem.new, lookup_singleton]; simp)
+  rw [this, hcon]
+  simp only [Elem.entry, Elem.new, lookup_singleton, stOf]
+
 end AHP.Conv
